@@ -226,9 +226,17 @@ def series_count(spec):
     return spec["ns"] if spec["k"] == "cat" else len(spec["lens"])
 
 
+def series_len(spec, s):
+    """Points of series s of a category shape: the leaf count unless 'slen' gives per-series lengths."""
+    if spec["vk"] == "empty":
+        return 0
+    sl = spec.get("slen")
+    return sl[s] if sl is not None else leaf_count(spec)
+
+
 def point_total(spec):
     if spec["k"] == "cat":
-        return 0 if spec["vk"] == "empty" else spec["ns"] * leaf_count(spec)
+        return sum(series_len(spec, s) for s in range(spec["ns"]))
     return sum(spec["lens"])
 
 
@@ -289,10 +297,9 @@ def model(spec, date1904=False) -> Model:
             else:
                 m.date_labels = labs
                 m.leaves = [("n", excel_serial(x, date1904)) for x in labs]
-        n = len(m.leaves)
         for s in range(spec["ns"]):
             m.names.append(series_name(spec, s))
-            m.values.append([] if spec["vk"] == "empty" else [value_for(spec["vk"], s, i) for i in range(n)])
+            m.values.append([value_for(spec["vk"], s, i) for i in range(series_len(spec, s))])
     else:
         for s, ln in enumerate(spec["lens"]):
             m.names.append(series_name(spec, s))
@@ -321,9 +328,8 @@ def build(spec):
                 cd.add_category(label_for(spec["lab"], i))
         if spec.get("cnf") is not None:
             cd.categories.number_format = spec["cnf"]
-        n = leaf_count(spec)
         for s in range(spec["ns"]):
-            vals = () if spec["vk"] == "empty" else [value_for(spec["vk"], s, i) for i in range(n)]
+            vals = [value_for(spec["vk"], s, i) for i in range(series_len(spec, s))]
             cd.add_series(series_name(spec, s), vals, spec.get("snf") if s == 0 else None)
         return cd
     cls = XyChartData if spec["k"] == "xy" else BubbleChartData
@@ -331,12 +337,91 @@ def build(spec):
     for s, ln in enumerate(spec["lens"]):
         ser = cd.add_series(series_name(spec, s), spec.get("snf") if s == 0 else None)
         for i in range(ln):
-            x, y = s * 10 + i * 0.5, value_for(spec["vk"], s, i)
-            if spec["k"] == "xy":
-                ser.add_data_point(x, y)
-            else:
-                ser.add_data_point(x, y, (i % 4) + 1 + 0.5 * s)
+            ser.add_data_point(*_xy_point(spec, s, i))
     return cd
+
+
+def _xy_point(spec, s, i):
+    x, y = s * 10 + i * 0.5, value_for(spec["vk"], s, i)
+    return (x, y) if spec["k"] == "xy" else (x, y, (i % 4) + 1 + 0.5 * s)
+
+
+# ---- one chart-data object used twice: (before, after) shape pairs and the delta between them --------------
+
+def reuse_pairs(kind):
+    """[(mutation name, shape before, shape after)]: `after` is what the SAME chart-data object holds once
+    `apply_delta` has grown it through the documented API (add_category / add_sub_category / add_series /
+    add_data_point). XY/bubble: every series position (first, middle, last) of 2- and 3-series data grows."""
+    if kind == "cat":
+        flat = {"k": "cat", "labels": ["North", "East", "South"], "ns": 2, "vk": "float"}
+        tree = {"k": "cat", "tree": [[[], []], [[]]], "ns": 2, "vk": "float"}
+        return [
+            ("add_category", flat, dict(flat, labels=flat["labels"] + ["Added later", "And another"])),
+            ("add_category_multilevel", tree, dict(tree, tree=[[[], []], [[]], [[], []]])),
+            ("add_sub_category", tree, dict(tree, tree=[[[], []], [[], [], []]])),
+            ("add_series", flat, dict(flat, ns=3)),
+            ("add_data_point", dict(flat, slen=[3, 1]), dict(flat, slen=[3, 3])),
+        ]
+    two = {"k": kind, "lens": [2, 3], "vk": "float"}
+    three = {"k": kind, "lens": [2, 3, 1], "vk": "float"}
+    return [
+        ("grow_first_of_2", two, dict(two, lens=[4, 3])),
+        ("grow_last_of_2", two, dict(two, lens=[2, 5])),
+        ("grow_first_of_3", three, dict(three, lens=[4, 3, 1])),
+        ("grow_middle_of_3", three, dict(three, lens=[2, 5, 1])),
+        ("grow_last_of_3", three, dict(three, lens=[2, 3, 3])),
+        ("add_series", two, dict(two, lens=[2, 3, 2])),
+    ]
+
+
+def apply_delta(cd, before, after):
+    """Grow the live chart-data object `cd` (built from `before`) to `after` through its documented API."""
+    if before["k"] != after["k"] or before["vk"] != after["vk"]:
+        raise ValueError("delta must keep kind and value kind")
+    if before["k"] != "cat":
+        for s, ln in enumerate(after["lens"]):
+            if s < len(before["lens"]):
+                ser = cd[s]
+                start = before["lens"][s]
+            else:
+                ser = cd.add_series(series_name(after, s))
+                start = 0
+            for i in range(start, ln):
+                ser.add_data_point(*_xy_point(after, s, i))
+        return
+    # categories first
+    if "tree" in after:
+        fb, fa = before["tree"], after["tree"]
+        depth, levels, _ = _tree_model(fa)
+        if depth != 2 or forest_depth(fb) != 2:
+            raise ValueError("delta supports depth-2 forests")
+        tops = [lab for _, lab in levels[1]]
+        leaves = [lab for _, lab in levels[0]]
+        pos = 0
+        for t, node in enumerate(fa):
+            if t < len(fb):
+                if t < len(fb) - 1 and len(node) != len(fb[t]):
+                    raise ValueError("only the last top-level category may gain sub-categories")
+                top, have = cd.categories[t], len(fb[t])
+            else:
+                top, have = cd.add_category(tops[t]), 0
+            for j in range(have, len(node)):
+                top.add_sub_category(leaves[pos + j])
+            pos += len(node)
+    else:
+        nb, na = leaf_count(before), leaf_count(after)
+        labs = after["labels"] if "labels" in after else [label_for(after["lab"], i) for i in range(na)]
+        for i in range(nb, na):
+            cd.add_category(labs[i])
+    # then series / points
+    for s in range(after["ns"]):
+        want = series_len(after, s)
+        if s < before["ns"]:
+            ser = cd[s]
+            for i in range(series_len(before, s), want):
+                ser.add_data_point(value_for(after["vk"], s, i))
+        else:
+            cd.add_series(series_name(after, s), [value_for(after["vk"], s, i) for i in range(want)])
 
 
 # ---- enumerations ---------------------------------------------------------------------------------------
